@@ -184,6 +184,9 @@ def callback_summary(prog, g, name):
             isinstance(v.args[0], CRef) and \
             isinstance(v.args[0].ci, ClassInfo):
         return ('construct-other', v.args[0].ci, repr(v.args[1])[:80], f)
+    if isinstance(v, App) and v.op == 'call' and \
+            isinstance(v.args[0], FRef):
+        return ('function', v.args[0].fi, repr(v.args[1])[:80], f)
     if isinstance(v, New) and isinstance(v.ci, ClassInfo):
         if len(v.args) == 1 and v.args[0] == App('star', ch):
             return ('construct', v.ci, f)
@@ -227,6 +230,8 @@ def production_value(g, rule, kid_vals):
                                                             len(flat)))
     if cb[0] == 'construct':
         return (cb[1].name,) + tuple(flat)
+    if cb[0] == 'function':
+        return ('via:' + cb[1].name,) + tuple(flat)
     if cb[0] == 'construct-other':
         return (cb[1].name, ('rearranged',) + tuple(flat))
     if cb[0] == 'const':
